@@ -134,6 +134,20 @@ CHECKS['C07'] = dict(
          "without gap or overlap (adjacent pieces telescope in the linear store), for all lengths/alignments/densities.",
     note=TB + E3TB, design_ref='5/C07')
 
+CHECKS['C14'] = dict(
+    category='proof', technique='abstract interpretation (E2) of the monomorphic MIR of the DEBUG configurations: every overflow check, bounds check, debug_assert!/assert!/unwrap is a diverging edge that the exact linear-integer store must refute under inferred (Houdini) loop invariants; assume-guarantee between public functions via the relation table mcai/mm.py; 2 (quick) / 10 (thorough) target configurations',
+    text="Decides: no diverging edge (overflow / bounds / slice-range / debug_assert! / assert! / unwrap / unreachable!) of the crate "
+         "is reachable from any public entry point for arbitrary arguments of its types -- public unsafe fns under their # Safety "
+         "contracts, the substring building blocks under the documented 'needle is the one given to the constructor' relation, "
+         "which is itself proved at every constructor (REL-POST) and at every internal call (REL-PRE). The documented packed-pair "
+         "panic is analysed on both sides of haystack.len() >= min_haystack_len(): inside, the assert! is unreachable; outside, "
+         "there is no normal return and that assert! is the only reachable panic (exactness). No abort/exit call is reachable. "
+         "Found and repaired a genuine defect (u32 overflow in PrefilterState::is_effective, /repo 3f371df). NOT decided: "
+         "termination; three overflow checks whose safety needs bit-level or content reasoning are listed as trusted lemmas in "
+         "the evidence (shiftor i+1-needle_len; two-way reverse pos -= critical_pos - i + 1 at i == 0).",
+    note=TB + 'the E2 interpreter (lin.py, loops.py, interp.py, models.py), the relation table mm.py, two axioms about alloc (Box<[u8]>::from / clone preserve the length); three trusted lemmas (see evidence.assumptions)',
+    design_ref='5/C14')
+
 NOT_YET = "check not built yet (build in progress, see DESIGN.md section 8 build order)"
 NA = {}
 
